@@ -164,7 +164,21 @@ class Exec:
         name = "%s/%s:%s" % (key, kind, label)
         if st.pathid:
             name += "@" + st.pathid
-        hyps = list(st.pc)
+        gfs = list(getattr(self, "global_facts", ()))
+        hyps = list(st.pc) + gfs
+        if gfs and is_z3(goal):
+            # safety net: a global fact must not mention (as a free constant) something that a quantifier elsewhere in
+            # this obligation binds -- that would be a definition made under a binder the engine did not register
+            fc = set()
+            for f in gfs:
+                fc |= free_consts(f)
+            bn = set(bound_names(goal))
+            for f in hyps:
+                if is_z3(f):
+                    bn |= bound_names(f)
+            clash = fc & bn
+            if clash:
+                raise Unsupported("definition made under an unregistered binder: %s" % sorted(clash)[:3])
         split = (info or {}).get("split_on")
         if expect == "unsat" and is_z3(goal):
             extra, goal, consts = skolemize(goal)
@@ -596,8 +610,9 @@ class Exec:
             if isinstance(t, bool):
                 out += self.ev(e.body if t else e.orelse, s)
                 continue
-            ra = self.ev(e.body, s.fork())
-            rb = self.ev(e.orelse, s.fork())
+            # each arm is evaluated under its own guard (so that its partial operations are obliged only there)
+            ra = self.ev(e.body, self._assume(s.fork(), t))
+            rb = self.ev(e.orelse, self._assume(s.fork(), z3.Not(_b(t))))
             if len(ra) == 1 and len(rb) == 1 and not ra[0][0].ctl and not rb[0][0].ctl \
                     and ra[0][0].heap == s.heap and rb[0][0].heap == s.heap:
                 try:
@@ -793,6 +808,9 @@ class Exec:
                 return r if isinstance(r, list) else [(st, r)]
             if f.kind == "uf":
                 return [(st, f.target(*[to_z3(st.get(a)) if not isinstance(a, NF) else a.val for a in args]))]
+            if f.kind == "ext":
+                c = dsl.CONTRACTS[f.target]
+                return self.apply_contract(c, None, [f.bound] + list(args), kwargs, st, node)
             if f.kind == "vecfun":
                 if len(args) != 1 or kwargs:
                     raise Unsupported("opaque functional %s called with other than one argument" % f.target)
@@ -1007,7 +1025,19 @@ class Exec:
         self.ctx.used_contracts.add(c.key)
         if c.trusted:
             self.ctx.used_trusted.add(c.key)
-        env = self.bind_args(fnode, args, kwargs, st)
+        if fnode is None:
+            # method of a class outside the repository (key ext::Class.method): bind by the contract's parameter list
+            names = list(c.params)
+            env = dict(zip(names, args))
+            for k, v in kwargs.items():
+                if k not in names or k in env:
+                    raise Unsupported("argument %s of external %s" % (k, c.key))
+                env[k] = v
+            missing = [n for n in names if n not in env]
+            if missing:
+                raise Unsupported("external %s called without %s" % (c.key, missing))
+        else:
+            env = self.bind_args(fnode, args, kwargs, st)
         line = getattr(node, "lineno", None)
         pre_st = st.fork()
         spec_env = dict(env)
@@ -1031,7 +1061,10 @@ class Exec:
             if isinstance(ref, Ref):
                 st.put(ref, self.havoc_like(st.get(ref), mname, st))
         rt = c.yields if c.yields is not None else c.returns
-        if c.yields is not None:
+        if c.ghost.get("result_is"):
+            # the result is the value of a spec expression over the arguments (e.g. a ghost field of the receiver)
+            res = self.spec_value(c.ghost["result_is"], spec_env, st, old_st=pre_st)
+        elif c.yields is not None:
             res = self.fresh_value(dsl.SeqT(c.yields), "res", st)
             # the callee's clauses may speak of where each value was yielded (src_): some such sequence exists
             spec_env["src_"] = Seq(res.n, self.fresh_elems(dsl.TupT(dsl.Int, dsl.Int, dsl.Int), "src", st))
